@@ -1223,7 +1223,7 @@ void read_global_motion_params(Bitstrm *bs, EbDecHandle *dec_handle, FrameHeader
                        sizeof(cur_buf->global_motion[ref].gm_params));
             int return_val = svt_get_shear_params(wm_global);
             assert(1 == return_val);
-            (void)return_val;
+            wm_global->invalid = !return_val; /* never warp with parameters outside the filter tables */
         }
     }
 }
